@@ -110,7 +110,7 @@ def gen_ensemble_plan(rng, seed, tier, prop):
         else:
             t = gen.gen_simple_term(rng, plan['nested'])
         if t: plan['termination'] = t
-    plan['limits'] = [rng.choice([2, 3, 5, 8, 12, 20, 30, 45]), rng.choice([None, None, 40, 100, 400])]
+    plan['limits'] = [rng.choice([0, 1, 2, 3, 5, 8, 12, 20, 30, 45]), rng.choice([None, None, 1, 40, 100, 400])]
     plan['evalmon'] = rng.random() < 0.4
     plan['nsteps'] = rng.randint(2, 10)
     return plan
